@@ -287,6 +287,52 @@ XRegistered(int l)
 constexpr uint64_t kOptVerMask = 0xffffffffULL;
 #endif
 
+
+#if LK != 2
+// the documented word layout: X bit 63, SIX bit 62, shared counter above the version (optimistic: bits 32-61,
+// pessimistic: bits 0-61). Every *registered* grant has certainly been acquired and not yet released, so it must be
+// visible in the word: a write that makes a registered grant vanish has released more than its own grant (or
+// corrupted the word), and a call that returns an owning guard whose grant the word does not show has not acquired it.
+void
+CheckGrantsVisible(int l, int tid, bool comp, const char *what, bool at_begin)
+{
+  const uint64_t w = Word(l);
+  uint64_t ns = 0;
+  bool six = false, x = false;
+  bool six_or_x = false;  // a SIX grant that is being upgraded right now may already show as X
+  for (size_t i = 0; i < GH->phases.size(); ++i) {
+    auto &p = GH->phases[i];
+    if (!p.active || p.lock != l) continue;
+    if (p.mode == M_S) ++ns;
+    if (p.mode == M_SIX) {
+      if (GH->tm[p.thread].upgrading == static_cast<int>(i)) {
+        six_or_x = true;
+      } else {
+        six = true;
+      }
+    }
+    if (p.mode == M_X) x = true;
+  }
+#if LK == 1
+  const uint64_t cnt = (w >> 32U) & ((1ULL << 30U) - 1ULL);
+#else
+  const uint64_t cnt = w & ((1ULL << 62U) - 1ULL);
+#endif
+  const bool wx = (w >> 63U) & 1U, wsix = (w >> 62U) & 1U;
+  if (cnt < ns || (six && !wsix) || (x && !wx) || (six_or_x && !wsix && !wx)) {
+    if (at_begin) {
+      vs::Violate(comp ? "C01,C07,C13" : "C01,C07", "GRANT-NOT-IN-WORD",
+                  Fmt("T%d's %s returned an owning guard, but lock %d's word 0x%" PRIx64 " does not show the %" PRIu64 " S%s%s grant(s) now registered", tid,
+                      what, l, w, ns, six ? " + SIX" : "", x ? " + X" : ""));
+    } else {
+      vs::Violate(comp ? "C01,C07,C13" : "C01,C07", "GRANT-VANISHED",
+                  Fmt("a write by T%d (%s) left lock %d with word 0x%" PRIx64 " although %" PRIu64 " S%s%s grant(s) of other guards are still held", tid,
+                      what, l, w, ns, six ? " + SIX" : "", x ? " + X" : ""));
+    }
+  }
+}
+#endif
+
 // begin a grant phase: matrix check (C01/C10), happens-before check (C08), FIFO (C11)
 int
 BeginPhase(int tid, int l, Mode m, bool conv, const char *how)
@@ -334,6 +380,9 @@ BeginPhase(int tid, int l, Mode m, bool conv, const char *how)
   ++tm.phases;
   GH->phases.push_back(ph);
   tm.req.active = false;
+#if LK != 2
+  CheckGrantsVisible(l, tid, strstr(how, "PrepareRead") != nullptr || strstr(how, "Composite") != nullptr, how, true);
+#endif
   return static_cast<int>(GH->phases.size()) - 1;
 }
 
@@ -432,40 +481,9 @@ OnPost(int tid, const vs::Op &op, uint64_t observed, uint64_t written, bool wrot
 #endif
 #if LK != 2
   if (l >= 0 && eff) {
-    // the documented word layout: X bit 63, SIX bit 62, shared counter above the version (optimistic: bits
-    // 32-61, pessimistic: bits 0-61). Every *registered* grant has certainly been acquired and not yet
-    // released, so it must be visible in the word: a write that makes a registered grant vanish has
-    // released more than its own grant (or corrupted the word).
-    const uint64_t w = Word(l);
-    uint64_t ns = 0;
-    bool six = false, x = false;
-    bool six_or_x = false;  // a SIX grant that is being upgraded right now may already show as X
-    for (size_t i = 0; i < GH->phases.size(); ++i) {
-      auto &p = GH->phases[i];
-      if (!p.active || p.lock != l) continue;
-      if (p.mode == M_S) ++ns;
-      if (p.mode == M_SIX) {
-        if (GH->tm[p.thread].upgrading == static_cast<int>(i)) {
-          six_or_x = true;
-        } else {
-          six = true;
-        }
-      }
-      if (p.mode == M_X) x = true;
-    }
-#if LK == 1
-    const uint64_t cnt = (w >> 32U) & ((1ULL << 30U) - 1ULL);
-#else
-    const uint64_t cnt = w & ((1ULL << 62U) - 1ULL);
-#endif
-    const bool wx = (w >> 63U) & 1U, wsix = (w >> 62U) & 1U;
-    if (cnt < ns || (six && !wsix) || (x && !wx) || (six_or_x && !wsix && !wx)) {
-      const std::string &mn = (tid < NT && tm.pc >= 0 && tm.pc < static_cast<int>(PROG.th[tid].size())) ? PROG.th[tid][tm.pc].mn : std::string("epilogue");
-      const bool comp = mn == "PR" || mn == "DC" || mn == "MC" || mn == "CC" || mn == "CV";
-      vs::Violate(comp ? "C01,C07,C13" : "C01,C07", "GRANT-VANISHED",
-                  Fmt("a write by T%d (%s) left lock %d with word 0x%" PRIx64 " although %" PRIu64 " S%s%s grant(s) of other guards are still held", tid,
-                      mn.c_str(), l, w, ns, six ? " + SIX" : "", x ? " + X" : ""));
-    }
+    const std::string &mn = (tid < NT && tm.pc >= 0 && tm.pc < static_cast<int>(PROG.th[tid].size())) ? PROG.th[tid][tm.pc].mn : std::string("epilogue");
+    const bool comp = mn == "PR" || mn == "DC" || mn == "MC" || mn == "CC" || mn == "CV";
+    CheckGrantsVisible(l, tid, comp, mn.c_str(), false);
   }
 #endif
   if (l >= 0) {
@@ -651,7 +669,7 @@ struct Interp {
     tm.engaged[kind][s] = 1;
     if (owning) {
       if (vs::Stat(tid).eff_writes == w0 && !conv) {
-        vs::Violate("C07", Fmt("OWNING-WITHOUT-WRITE:%s", how),
+        vs::Violate(kind == 3 ? "C07,C13" : "C07", Fmt("OWNING-WITHOUT-WRITE:%s", how),
                     Fmt("T%d: %s returned an owning guard without modifying the lock", tid, how));
       }
       tm.own[kind][s] = static_cast<int8_t>(BeginPhase(tid, l, m, conv, how));
